@@ -48,9 +48,12 @@ def fmtSym : Nat := 3
 
 /-! ## contexts (facts `fact_contexts`) -/
 
-def natDigits : Nat → List UInt8
-  | n => if h : n < 10 then [UInt8.ofNat (48 + n)] else natDigits (n / 10) ++ [UInt8.ofNat (48 + n % 10)]
-decreasing_by omega
+def natDigitsAux : Nat → Nat → List UInt8
+  | 0, _ => []
+  | fuel + 1, n => if n < 10 then [UInt8.ofNat (48 + n)] else natDigitsAux fuel (n / 10) ++ [UInt8.ofNat (48 + n % 10)]
+
+/-- decimal digits (fuel `n + 1` always suffices; structural so that it reduces in proofs) -/
+def natDigits (n : Nat) : List UInt8 := natDigitsAux (n + 1) n
 
 /-- `fmt.Sprintf("%d", seqnum)` -/
 def decimal (i : Int) : Bytes :=
